@@ -69,6 +69,13 @@ add("C23", "smmc", "model_checking", "exhaustive operation-sequence enumeration 
     "Every sequence (first op a write; depth 4/3 quick, 6/5 thorough for File/RocksDB) over {put with TTL, put, delete, CAS on the current value, clock advance, expiry cleanup, graceful restart, process crash + reopen, snapshot generate + install on a fresh instance}; CLOCK_REALTIME is frozen and moved only by the harness (clock_gettime defined in the executable, self-tested). After every operation get(k) is compared with the reference (no comparison while a TTL has elapsed but no cleanup has run); every sequence ends with 'advance past every TTL + cleanup'. Plus n keys under TTL (n in 2,11,12,24) of which exactly one is due, for every choice of that key. Two crash-related defects (TTL table only persisted by a graceful stop) are recorded as known findings with guards on their specific cause.",
     "One key; TTL state observed through get() only; restart mirrors EmbeddedEngine::stop ordering.", "DESIGN.md section 4 C23")
 
+add("C16", "smmc", "model_checking", "exhaustive enumeration of (command sequence, retention, snapshot point, concurrent apply) through the real create_snapshot / chunk stream / install path, then log replay, on both engines",
+    "Every command sequence (File <= 3 quick / 4 thorough, RocksDB one shorter) over {put, two CAS forming a non-idempotent chain, delete, TTL put, put} x retained_log_entries in {1,2,3} x snapshot after every prefix x {no concurrent apply / the apply worker applies the next entry through the handler while create_snapshot sits between its last_applied() read and the data copy}: real create_snapshot on a source, real load_snapshot_data chunk stream, real apply_snapshot_stream_from_leader on a fresh node, then replay of the log after the recorded boundary. Oracles: installed state == reference at last_included, last_applied == last_included, state after replay == reference after the whole log. The known defect (boundary is retained_log_entries behind the captured state; pinned by integration tests) is recorded with a guard on exactly that cause.",
+    "One declared interleaving point between snapshot generation and the apply worker (reached through a delegating StateMachine wrapper); TTL compared as 'which keys carry a TTL'.", "DESIGN.md section 4 C16")
+add("C17", "smmc", "fault_enumeration", "exhaustive enumeration of single and paired chunk-stream faults fed to the real snapshot receive/install path",
+    "A real multi-chunk snapshot stream is mutated by every single fault and every ordered pair from {drop, duplicate, swap, checksum corruption, data corruption, other leader id, other leader term, missing metadata, wrong total, early close, stall until the receiver's timeout} and fed to the real apply_snapshot_stream_from_leader of a follower holding a different state; oracle: the complete in-order stream is accepted and yields exactly the snapshot's state, every faulty stream is rejected and leaves key-value contents, TTL keys, applied index, snapshot metadata and the final files of the snapshot directory untouched. File engine in the quick tier, File + RocksDB in the thorough tier.",
+    "Chunk-level checksums; streams in which the sender lies consistently about total_chunks are outside the fault list and not judged; crash points of the File install path are covered by C15's sweep of the persist functions.", "DESIGN.md section 4 C17")
+
 NOT_BUILT = "check not built yet (work in progress, DESIGN.md section 10 build order); no verdict is claimed for this property"
 
 manifest = {
